@@ -1,5 +1,9 @@
 PROP = {
- "functions": [],
+ "functions": [
+  "saml2_tophat:create_class_from_xml_string",
+  "saml2_tophat:extension_element_from_string",
+  "saml2_tophat.soap:parse_soap_enveloped_saml_thingy"
+ ],
  "tables": [
   "table_xml_callsites"
  ],
@@ -7,13 +11,14 @@ PROP = {
   "hostile_xml"
  ],
  "level": "other",
- "explanation": "No function is under a behavioural contract for C11: the property reduces to the external parser (E-DEFUSED) and the parsing assumptions (E-PARSE). What is decided for every input is the syntactic call-site obligation: every call in the package that can parse XML resolves to the hardened parser (an exhaustive inventory rebuilt from the working tree on every run). The behaviour of the hardened parser and of the entry points on malformed or truncated input is only exercised by the bounded hostile-document sweep (labelled bounded, never counted as proved).",
+ "explanation": "Three entry points are under a behavioural contract (every schema *_from_string function goes through create_class_from_xml_string): an object or an extracted SOAP body is only ever produced from an element tree that the HARDENED parser accepted for the very text that was received; the standard-library parser has a contract without that guarantee, so a fall-back to it fails the postcondition. What the hardened parser guarantees (no entity declared, nothing external read, well-formed to the end) is E-DEFUSED. In addition every call in the package that can parse XML is shown to resolve to the hardened parser (exhaustive syntactic inventory rebuilt from the working tree), and the bounded hostile-document sweep exercises E-DEFUSED and the remaining entry points natively (labelled bounded, never counted as proved).",
  "level_text": "syntactic call-site obligation over the whole package: every call that can parse XML resolves to the hardened parser (defusedxml); inventory rebuilt from the working tree on every run. The behaviour of the hardened parser itself is assumed (E-DEFUSED) and only validated by the bounded hostile-document sweep.",
  "assumptions": [
   "E-DEFUSED"
  ],
  "not_decided": [
-  "posts of the public parse entries as deductive obligations (they reduce to E-DEFUSED and E-PARSE); covered only by the bounded sweep"
+  "the hardened parser's own behaviour (E-DEFUSED) -- only exercised by the bounded sweep",
+  "open_soap_envelope / class_instances_from_soap_enveloped_saml_thingies / metadata loaders as deductive obligations (covered by the inventory and the sweep)"
  ],
  "id": "C11"
 }
